@@ -253,13 +253,19 @@ def errName : BuildErr → String
   | .automatonScale => "automaton_scale"
   | .panic s => s!"panic({s})"
 
-/-- Model of the two construction entry points (`build` converts positions first). -/
+/-- `V::try_from(i)` for the value type of the case (`empty`: the unit-like type of the harness,
+every position converts to the single value). -/
+def convOf (vtype : String) (i : Nat) : Option Int :=
+  if vtype == "empty" then some 0
+  else match maxIndexOf vtype with
+    | some mx => if i ≤ mx then some (Int.ofNat i) else none
+    | none => some (Int.ofNat i)
+
+/-- Model of the two construction entry points: `build` (positions, `Daac.buildPositions`) and
+`build_with_values` (`Daac.buildDA`). -/
 def modelBuild (c : Case) (LP : List (LPat Int)) : Except BuildErr (DA Int) :=
-  let convFails := c.entry == "P" &&
-    (match maxIndexOf c.vtype with
-     | some mx => LP.length > 0 && LP.length - 1 > mx
-     | none => false)
-  if convFails then .error .invalidConversion
+  if c.entry == "P" then
+    buildPositions (convOf c.vtype) c.variant ⟨c.kind, c.nfb⟩ (LP.map (fun p => (p.key, p.blen)))
   else buildDA c.variant ⟨c.kind, c.nfb⟩ LP
 
 /-- Suite K-build: model builder vs the implementation's outcome and tables. -/
